@@ -36,7 +36,8 @@ MANIFEST = dict(
          '(timeout hook, accept callback) as a point where _cancel() can land: _ack reads the cancellation flag once (counted on every run), '
          'a cancellation landing after that reading changes only the flag, the answer is determined by the first reading (accepted => ACK '
          'whatever the callback does, no answer iff it raises), accept callback and NACK never occur in one _ack, closed handshake: '
-         'accept callback ran and returned => the worker runs the job; every job '
+         'accept callback ran and returned => the worker runs the job, refuted with witness (known finding F-C03-2): an accepted job whose accept '
+         'callback raises gets no answer and its worker waits for ever; every job '
          'announced and left behind is ACK,RUN,READY or ACK + the parent\'s NACK as first SYN answer; over ONE shared SYN '
          'stream every answer is consumed by the job it was sent for; closed handshake (SYN answer := the parent\'s reaction '
          'to the ACK): with the two switches linked (synack on, workers have a SYN queue, response delivered) a job '
